@@ -11,6 +11,7 @@ import (
 
 func init() {
 	register("C10", func(c *core.Ctx, tier string) {
+		limitFailureReported(c, "C10.11")
 		wsInflatedBound(c, "C10.9")
 		v3BinaryPayloadCodec(c, "C10.10", true)
 		pollingEffects(c, "C10.6")
